@@ -111,9 +111,11 @@ pub fn spell(v: i128, notation: &str, ch: &mut Choices) -> Option<String> {
     })
 }
 
-pub const MALFORMED: [&str; 22] = [
+pub const MALFORMED: [&str; 30] = [
     "0x", "0b", "0b2", "0b102", "0xg", "0x1g", "--1", "-", "1_000", "0x-1", "0b-1", "12a", "1e3",
     "0x+5", "+5", "0b+1", "'ab'", "''", "0o17", "1-2", "-0x", "0xx1",
+    // character literals with a broken escape
+    "'\\u+041'", "'\\u-041'", "'\\u004g'", "'\\u41'", "'\\q'", "'\\x'", "-+5", "++5",
 ];
 
 fn node_on_line<'a>(nodes: &'a [PNode], ti: &TextIndex, lit_start: usize) -> Vec<&'a PNode> {
